@@ -274,9 +274,10 @@ Qed.
 Lemma pstep_fresh k anyd prims s o :
   disciplined o = true -> pfresh k anyd prims s -> pfresh k anyd prims (fst (pstep k anyd prims s o)).
 Proof.
-  intros D F. destruct o as [typ|tb clear|p c|]; simpl in *.
+  intros D F. destruct o as [typ|g old new|tb clear|p c|]; simpl in *.
   - destruct (pcache_get (pca s) typ) eqn:E; simpl; [exact F|].
     intros t a [H|H]; [inversion H; reflexivity|apply F; exact H].
+  - intros t a [].
   - subst clear. intros t a [].
   - discriminate.
   - intros t a [].
@@ -345,3 +346,83 @@ Example provider_cache_example :
             [PQuery t_K; PTable [(t_K, [0%N; 1%N])] true; PQuery t_K; PClear; PQuery t_obj]) =
   [Some [0%N]; None; Some [0%N; 1%N]; None; Some [0%N; 1%N]].
 Proof. vm_compute. reflexivity. Qed.
+
+(* ------------------------------------------------------------------------------------------ *)
+(* D. update_return_type moves the registration: dropped under the old key, present under the new *)
+Lemma ty_eqb_refl_gen n : forall a, size a <= n -> ty_eqb a a = true.
+Proof.
+  induction n as [|n IH]; intros a Hn; [pose proof (size_pos a); lia|].
+  destruct a as [| |c x|x|x]; simpl; try reflexivity.
+  - rewrite N.eqb_refl. simpl. apply forall2b_diag. intros u Hu. apply IH.
+    apply In_size_le in Hu. simpl in Hn. lia.
+  - apply forall2b_diag. intros u Hu. apply IH. apply In_size_le in Hu. simpl in Hn. lia.
+  - apply forall2b_diag. intros u Hu. apply IH. apply In_size_le in Hu. simpl in Hn. lia.
+Qed.
+
+Lemma ty_eqb_refl a : ty_eqb a a = true.
+Proof. apply ty_eqb_refl_gen with (n := size a). auto. Qed.
+
+Lemma tb_add_In tb new g e : In e (tb_add tb new g) -> In e tb \/ fst e = new.
+Proof.
+  induction tb as [|e0 r IH]; simpl.
+  - intros [<-|[]]. right. reflexivity.
+  - destruct (ty_eqb (fst e0) new) eqn:E.
+    + intros [<-|H]; [right; simpl; apply ty_eqb_eq; exact E|left; right; exact H].
+    + intros [<-|H]; [left; left; reflexivity|]. destruct (IH H) as [H1|H1]; [left; right; exact H1|right; exact H1].
+Qed.
+
+Lemma tb_add_registers tb new g : exists e, In e (tb_add tb new g) /\ fst e = new /\ In g (snd e).
+Proof.
+  induction tb as [|e0 r IH]; simpl.
+  - exists (new, [g]). simpl. auto.
+  - destruct (ty_eqb (fst e0) new) eqn:E.
+    + eexists. split; [left; reflexivity|]. simpl. split; [apply ty_eqb_eq; exact E|].
+      destruct (memN g (snd e0)) eqn:M; [apply memN_In; exact M|apply in_or_app; right; simpl; auto].
+    + destruct IH as [e [H1 H2]]. exists e. split; [right; exact H1|exact H2].
+Qed.
+
+Lemma tb_drop_In tb old g e :
+  In e (tb_drop tb old g) -> In g (snd e) ->
+  ty_eqb (fst e) old = false /\ In e tb.
+Proof.
+  induction tb as [|e0 r IH]; simpl; [tauto|].
+  destruct (ty_eqb (fst e0) old) eqn:E.
+  - intros H Hg. apply in_app_or in H. destruct H as [H|H].
+    + destruct (nonempty (filter (fun x => negb (N.eqb x g)) (snd e0))); [|contradiction].
+      destruct H as [<-|[]]. simpl in Hg. apply filter_In in Hg. destruct Hg as [_ Hg].
+      rewrite N.eqb_refl in Hg. discriminate.
+    + destruct (IH H Hg) as [H1 H2]. auto.
+  - intros [<-|H] Hg; [auto|]. destruct (IH H Hg) as [H1 H2]. auto.
+Qed.
+
+(* after update_return_type(g: old -> new) g is registered under the new type ... *)
+Lemma update_registers_new tb g old new :
+  exists e, In e (tb_update tb g old new) /\ fst e = new /\ In g (snd e).
+Proof. apply tb_add_registers. Qed.
+
+(* ... and, when it was registered under its old return type only, under nothing else *)
+Lemma update_only_new tb g old new :
+  (forall e, In e tb -> In g (snd e) -> fst e = old) ->
+  forall e, In e (tb_update tb g old new) -> In g (snd e) -> fst e = new.
+Proof.
+  intros H e He Hg. apply tb_add_In in He. destruct He as [He|He]; [|exact He].
+  destruct (tb_drop_In _ _ _ _ He Hg) as [H1 H2].
+  rewrite (H e H2 Hg) in H1. rewrite ty_eqb_refl in H1. discriminate.
+Qed.
+
+(* hence the random provider offers the updated generator only for requests its NEW return type
+   may be a subtype of (for the heuristic provider combine with offered_h_compatible_cov) *)
+Lemma updated_generator_compatible gph tb g old new typ :
+  (forall e, In e tb -> In g (snd e) -> fst e = old) ->
+  In g (offered_r gph (tb_update tb g old new) typ) -> is_maybe_subtype gph new typ = true.
+Proof.
+  intros H Hin. apply offered_r_compatible in Hin. destruct Hin as [e [He [Hg Hm]]].
+  rewrite <- (update_only_new tb g old new H e He Hg). exact Hm.
+Qed.
+
+Example update_example :
+  tb_update tb_ex 3%N TAny (TUnion [t_K]) =
+    [(t_K, [0%N]); (t_list t_int, [1%N]); (TUnion [t_int; TNone], [2%N]); (TUnion [t_K], [3%N])] /\
+  offered_r g_ex (tb_update tb_ex 3%N TAny (TUnion [t_K])) t_str = [] /\
+  offered_r g_ex tb_ex t_str = [3%N].
+Proof. vm_compute. repeat split; reflexivity. Qed.
